@@ -49,6 +49,10 @@ pub struct Scn {
     pub templates: Vec<Vec<Stmt>>,
     pub body: Vec<Stmt>,
     pub anchors: u32,
+    /// named <reuse id=.. href="#tK" ..attrs/> entries placed inside <specs> (derived
+    /// templates): they define nothing outside themselves
+    #[serde(default)]
+    pub derived: Vec<(usize, Vec<(String, String)>)>,
 }
 
 // ---------------------------------------------------------------------------------------------
@@ -324,6 +328,13 @@ pub fn render(scn: &Scn, fwd: bool) -> String {
             render_body(t, 3, true, &mut s, &mut line);
             s.push_str("    </g>\n");
         }
+        for (k, (t, attrs)) in scn.derived.iter().enumerate() {
+            s.push_str(&format!("    <reuse id=\"d{k}\" href=\"#t{t}\" inst=\"9{k}\""));
+            for (a, v) in attrs {
+                s.push_str(&format!(" {a}=\"{v}\""));
+            }
+            s.push_str("/>\n");
+        }
         s.push_str("  </specs>\n");
     }
     render_body(&scn.body, 1, false, &mut s, &mut line);
@@ -557,11 +568,26 @@ impl Engine for C15 {
         // trailing probe reads every name
         body.push(g.probe());
         let anchors = g.anchors;
+        let mut derived = Vec::new();
+        if n_templates > 0 && g.rng.chance(1, 3) {
+            let nd = 1 + g.rng.usize(2);
+            for _ in 0..nd {
+                let mut attrs = vec![("va".to_string(), format!("D{}", g.rng.below(50)))];
+                if g.rng.chance(1, 2) {
+                    attrs.push(("fill".to_string(), "pink".to_string()));
+                }
+                if g.rng.chance(1, 2) {
+                    attrs.push(("vz".to_string(), "leak".to_string()));
+                }
+                derived.push((g.rng.usize(n_templates), attrs));
+            }
+        }
         serde_json::to_value(Scn {
             class: class.to_string(),
             templates,
             body,
             anchors,
+            derived,
         })
         .unwrap()
     }
@@ -802,6 +828,11 @@ impl Engine for C15 {
         for nb in variants(&scn.body) {
             let mut s = scn.clone();
             s.body = nb;
+            out.push(s);
+        }
+        for di in 0..scn.derived.len() {
+            let mut s = scn.clone();
+            s.derived.remove(di);
             out.push(s);
         }
         for ti in 0..scn.templates.len() {
